@@ -27,7 +27,7 @@ def run(tier, seed):
     common.nohooks_leg(chk, "rngfaults", profile="checked", nsweeps=1)
     common.mc_leg(chk, "MC_API", tier=tier)
     chk.cov["exhaustive"] = True
-    chk.cov["exhaustive_note"] = "every (fault kind x entry point x set) of the model; there is exactly one RNG request per operation, so one fault point"
+    chk.cov["exhaustive_note"] = "every (fault kind x entry point x set) of the model; one RNG request per operation (one fault point); the constant-time test entry point makes two and is faulted at both"
     return chk.finish()
 
 
